@@ -34,7 +34,7 @@ RULE = ("Relative queries from names, non-negative indices, positive-step slices
         "an array, a falsy leaf or an integer-like name; distinct by (document, match query, expressions, style).")
 ASSUMPTIONS = [
     "which nodes a relative query selects is taken from the library's own finditer (selection is C01's subject)",
-    "value oracle applied only when no selected node is an ancestor of another",
+    "value oracle of the tree-shaped projections applied only when no selected node is an ancestor of another (flat: always)",
 ]
 
 STYLES = [Projection.RELATIVE, Projection.ROOT, Projection.FLAT]
@@ -121,12 +121,16 @@ def judge(stats: Stats, doc, mtext, exprs, style, compiled, origin):
                 info["falsy"] = True
             if any(isinstance(x, str) and x.strip().lstrip("+-").isdigit() for x in parts):
                 info["intlike"] = True
-        if not ascending_ok(sel):
+        # the two preconditions concern the tree-shaped projections only: a flat projection is the plain list of the
+        # selected values in selection order, whatever their order and whether or not one lies inside another
+        if style != Projection.FLAT and not ascending_ok(sel):
             judged = False
             stats.excluded["selection-not-ascending (precondition)"] += 1
-        if ancestor_conflict(sel):
+        if style != Projection.FLAT and ancestor_conflict(sel):
             judged = False
             stats.excluded["selected-node-is-ancestor-of-another"] += 1
+        if style == Projection.FLAT and (ancestor_conflict(sel) or not ascending_ok(sel)):
+            stats.cls("flat:overlapping-or-unordered-selection")
         if len(set(s[0] for s in sel)) != len(sel):
             # the same node selected twice: FLAT lists it twice, trees hold it once
             pass
